@@ -60,20 +60,21 @@ var totalSmall = overlayTest{Name: "snap-total-small", Level: "bounded", Src: "c
 	Bound: "bounded stand-in for the ring assembly (kmpDeduplicate, splitRing, dedupeInnersOuters, matchInnersToPolygons, RemoveSequences) and the no-points-found guard: the real SnapPolygon on every single ring of 1..5 (quick) / 1..6 (thorough) vertices over a 3x3 lattice of pixel centres, corners and border points, 3 id sets x 4 flag combinations, plus 20000 / 300000 random polygons of up to 3 rings; a panic or a run over 5 s fails"}
 
 var ringAssembly = overlayTest{Name: "ring-assembly-small-alphabet", Level: "bounded", Src: "c06_ring_assembly_test.go", PkgRel: "snap", Run: "^TestGvcC06RingAssembly$",
-	Bound: "bounded stand-in for the ring assembly: the real cleanupNewRing (kmpDeduplicate + splitRing) and kmpDeduplicate on EVERY ring without equal neighbours of length 0..15 (quick) / 0..18 (thorough) over 3 pixel centres and 0..10 / 0..12 over 4, as outer and as inner ring, plus 100000 / 1500000 pseudo-random zig-zag rings of 4..40 vertices over 6 points; per input: no panic, returns within 5 s, every returned vertex is an input vertex"}
+	Bound: "bounded stand-in for the ring assembly: the real cleanupNewRing (kmpDeduplicate + splitRing) and kmpDeduplicate on EVERY ring without equal neighbours of length 0..15 (quick) / 0..18 (thorough) over 3 pixel centres and 0..10 / 0..12 over 4, as outer and as inner ring, plus 100000 / 1500000 pseudo-random zig-zag rings of 4..40 vertices over 6 points and 600000 / 8000000 word rings (a random word repeated and reversed, 8..47 vertices); per input: no panic, returns within 5 s, every returned vertex is an input vertex"}
 
 func init() {
 	propertyPlans["C06"] = &PropertyPlan{ID: "C06",
-		AlsoFuncs: []string{"snap.SnapPolygon"},
+		AlsoFuncs: []string{"snap.SnapPolygon", "mapslicehelp.RemoveSequences", "mapslicehelp.LastMatch", "mapslicehelp.DeleteFromSliceByIndex", "mapslicehelp.ReverseClone", "snap.ringsAreEqual", "snap.kmpSearchAll"},
 		NotDecided: []string{
-			"that the ring assembly (cleanupNewRing = kmpDeduplicate + splitRing, dedupeInnersOuters, matchInnersToPolygons, sortPolyIdxsByOuterAreaDesc, RemoveSequences) neither panics nor loops: outside the verifier's reach, only the bounded stand-in snap-total-small",
+			"that the bodies of kmpDeduplicate, splitRing, dedupeInnersOuters, matchInnersToPolygons, sortPolyIdxsByOuterAreaDesc, ringContains neither panic nor loop: outside the verifier's reach (append into a re-sliced ring, ordered/sorted map libraries), only the bounded stand-ins ring-assembly-small-alphabet and snap-total-small. Their helpers kmpTable, kmpSearch, kmpSearchAll, RemoveSequences, ReverseClone, DeleteFromSliceByIndex, LastMatch, ringsAreEqual, ensureCorrectWindingOrder, outersToPolygons ARE proved safe and terminating",
 			"that cleanupNewVertices never sees an empty list (panicNoPointsFoundForVertices): it needs that every inserted vertex keeps a stored pixel on every level, which is not carried through the insertion contracts yet; covered by the bounded stand-in only",
 			"time bound (polynomial in the vertex count): termination of every loop of the verified functions is proved by decreases clauses, no complexity statement",
 			"tile matrices whose pixel level exceeds 32: known finding F6 (excluded by the precondition of SnapPolygon's contract)"},
 		Assumptions: []string{"preconditions of SnapPolygon's contract (ids in [0,1000], indexable tile matrix set, level <= 32, |ordinate| < 2e8, round grid)",
 			"trusted leaves ensureCorrectWindingOrder, cleanupNewRing, dedupeInnersOuters, outersToPolygons, matchInnersToPolygons, reverseWindingOrderIfConfigured: only that they return (or panic) without touching the index; callers treat their panic as possible"},
 		Extra: func(cc *checkCtx) *extraResult { return cc.runOverlayTests([]overlayTest{ringAssembly, totalSmall}) },
-		Demos: []findingDemo{{ID: "F6", Src: "f6_level_above_32_test.go", PkgRel: "snap", Run: "^TestGvcFindingF6$"}},
+		Demos: []findingDemo{{ID: "F6", Src: "f6_level_above_32_test.go", PkgRel: "snap", Run: "^TestGvcFindingF6$"},
+			{ID: "F9", Src: "f9_overlapping_removal_ranges_test.go", PkgRel: "snap", Run: "^TestGvcFindingF9$"}},
 	}
 	propertyPlans["C08"] = &PropertyPlan{ID: "C08",
 		NotDecided: []string{
